@@ -55,6 +55,27 @@ def gen_cases(tier, seed):
             for pair in MAIN:
                 cases.append(("e%d" % k, pair, n, (0, 3)[k % 2], sc))
                 k += 1
+    # large vectors and large allocations (thresholds in bytes or in element counts are out of reach of the small cases):
+    # up to 3000 elements, mostly abandoned / all abandoned / all converted, failures at the last or at a random element,
+    # up to 10000 slots of spare capacity around a few elements
+    nlarge = 160 if tier == "thorough" else 48
+    for _ in range(nlarge):
+        n = rng.choice([64, 256, 400, 1024, 3000])
+        p_ab = rng.choice([0.0, 0.5, 0.9, 0.97, 1.0])
+        sc = [(2 if rng.random() < p_ab else 0) + (1 if rng.random() < 0.1 else 0) for _ in range(n)]
+        r = rng.random()
+        if r < 0.15:
+            sc[-1] = rng.randrange(4, 12)
+        elif r < 0.3:
+            sc[rng.randrange(n)] = rng.randrange(4, 12)
+        cases.append(("L%d" % k, rng.choice(MAIN), n, rng.choice([0, 1, 1000, 5000]), sc))
+        k += 1
+    for n in (0, 1, 3):
+        for extra in (2000, 10000):
+            for pair in ("tok", "big", "u32"):
+                for c in (0, 2):
+                    cases.append(("S%d" % k, pair, n, extra, [c] * n))
+                    k += 1
     nrand = 3000 if tier == "thorough" else 600
     for _ in range(nrand):
         n = rng.choice([5, 6, 7, 8, 12, 20, 50, 200])
@@ -81,7 +102,7 @@ def canon_model(pair, n, extra, enc):
     if res[0] == 0 and not u_id:
         res = res[:2] + [0] * (len(res) - 2)
     if res[0] in (1, 2, 3) and not t_id:
-        res = [res[0], res[1] // 1000 * 1000]  # the payload is derived from the element's id
+        res = [res[0], 7000 if res[0] == 1 else 9000]  # the payload is base + the element's id (0 when the type stores none)
     out = []
     j = 0
     while j < len(evs):
@@ -110,14 +131,31 @@ def canon_model(pair, n, extra, enc):
 
 
 def _run_impl(binary, cases, tag, out):
-    inp = "".join("%s %s %d %d %s\n" % (l, p, n, e, " ".join(map(str, sc))) for (l, p, n, e, sc) in cases)
-    rc, o = sh([binary], stdin=inp.encode(), timeout=1800)
+    """runs the driver on the cases; when the process dies on a case (memory corruption, abort), that case is recorded
+    as dead and the driver is restarted on the cases after it (at most 60 times), so that one crashing case does not hide
+    the others"""
     res = {}
-    for line in o.splitlines():
-        m = re.match(r"(\S+) ([0-9,]+) # ?(.*)$", line)
-        if m:
-            res[m.group(1)] = ([int(x) for x in m.group(2).split(",")], m.group(3).strip())
-    return rc, res, o
+    dead = {}
+    rest = list(cases)
+    rc_all, raw = 0, ""
+    for _ in range(61):
+        if not rest:
+            break
+        inp = "".join("%s %s %d %d %s\n" % (l, p, n, e, " ".join(map(str, sc))) for (l, p, n, e, sc) in rest)
+        rc, o = sh([binary], stdin=inp.encode(), timeout=1800)
+        raw = o
+        for line in o.splitlines():
+            m = re.match(r"(\S+) ([0-9,]+) # ?(.*)$", line)
+            if m:
+                res[m.group(1)] = ([int(x) for x in m.group(2).split(",")], m.group(3).strip())
+        missing = [i for i, c in enumerate(rest) if c[0] not in res]
+        if not missing:
+            break
+        rc_all = rc
+        dead[rest[missing[0]][0]] = rc
+        rest = rest[missing[0] + 1:]
+    res["__dead__"] = dead
+    return rc_all, res, raw
 
 
 def _run_model(cases):
@@ -175,11 +213,15 @@ def run_e4(tier, seed):
                     distinct.add((p, n, tuple(sc[:next((i + 1 for i, c in enumerate(sc) if c >= 4), len(sc))])))
                 case = "%s %d %d %s" % (p, n, e, " ".join(map(str, sc)))
                 if l not in impl:
-                    res["diffs"].append({"property": prop, "profile": profile, "case": case,
-                                         "implementation": "no output (the driver crashed or was killed, exit %s)" % rc,
-                                         "model": want})
-                    res["oracle"].append({"property": prop, "profile": profile, "case": case,
-                                          "what": "the driver process died on this case (exit %s): memory corruption / abort" % rc})
+                    dead = impl.get("__dead__", {})
+                    if sum(1 for x in res["oracle"] if x["property"] == prop) < 20:
+                        res["diffs"].append({"property": prop, "profile": profile, "case": case,
+                                             "implementation": "no output (the driver crashed or was killed, exit %s)" % dead.get(l, rc),
+                                             "model": want})
+                        res["oracle"].append({"property": prop, "profile": profile, "case": case,
+                                              "what": "the driver process died on this case (exit %s): memory corruption / abort" % dead.get(l, rc)})
+                    if l in dead:
+                        continue
                     break
                 got, orc = impl[l]
                 if group == "mismatch" and got[0] != 4:
